@@ -219,6 +219,42 @@ def _in_fork(fn):
     return json.loads(data) if data else {"crash": "no output from forked interpreter"}
 
 
+# include files every C17 interpreter can see (the same text for every program): their statements need symbols that
+# the INCLUDING program defines, so a parse or a resolution remembered from an earlier assembly shows up as a
+# different image for a later one
+C17_LIB = {
+    "LIBA.ASM": ["PUTCH STA OUTPORT\n", " LEAX -1,X\n", " BNE PUTCH\n", " LDA #CONST\n", " RTS\n"],
+    "LIBB.ASM": ["DELAY LDX #COUNT\n", "DLOOP LEAX -1,X\n", " BNE DLOOP\n", " JMP BACK\n", " FDB BACK\n"],
+    "LIBC.ASM": [" LDD TABLE,PCR\n", " STD OUTPORT\n", " LBRA BACK\n"],
+}
+
+
+def _install_c17_lib():
+    from cocoasm.virtualfiles.source_file import SourceFile
+
+    def read_assembly_contents(filename):
+        if filename not in C17_LIB:
+            raise FileNotFoundError(filename)
+        return list(C17_LIB[filename])
+    SourceFile.read_assembly_contents = staticmethod(read_assembly_contents)
+
+
+def c17_include_program(rng):
+    """a program that INCLUDEs one or two library files and defines the symbols they use, each time differently"""
+    org = rng.choice([0x0E00, 0x1000, 0x3000, 0x0020])
+    outport = rng.choice([0x20, 0xFF20, 0x0400, 0xFF])
+    pre = [" ORG $%04X\n" % org, "OUTPORT EQU $%X\n" % outport, "CONST EQU %d\n" % rng.randrange(256),
+           "COUNT EQU %d\n" % rng.choice([1, 255, 256, 1000, 65535])]
+    body = [" %s\n" % asmgen.rand_stmt(rng, ["BACK", "TABLE"], allow_pcr=False) for _ in range(rng.randrange(0, 6))]
+    libs = rng.sample(sorted(C17_LIB), rng.choice([1, 1, 2, 3]))
+    incs = [" INCLUDE %s\n" % f for f in libs]
+    tail = [" %s\n" % asmgen.rand_stmt(rng, ["BACK", "TABLE"], allow_pcr=False) for _ in range(rng.randrange(0, 4))]
+    lines = pre + ["BACK NOP\n"] + body
+    k = rng.randrange(len(incs) + 1)
+    lines += incs[:k] + ["TABLE FDB $1234\n"] + tail + incs[k:]
+    return lines
+
+
 def _child_main():
     """stdin: {"items": [[program, ...], ...]}; every item is run in its own fork of this freshly started
     interpreter (cocoasm imported, nothing assembled), so an item's history is exactly what is listed."""
@@ -226,6 +262,7 @@ def _child_main():
     common.import_repo()
     import cocoasm.program  # noqa
     import cocoasm.virtualfiles.coco_file  # noqa
+    _install_c17_lib()
     snap0 = _snapshot()
     out = [_in_fork(lambda it=it: _run_history(it, snap0)) for it in req["items"]]
     sys.stdout.write(json.dumps({"results": out, "hashseed_env": os.environ.get("PYTHONHASHSEED"),
@@ -355,6 +392,10 @@ def c17_pool(rng, n):
     while len(progs) < n:
         p = asmgen.rand_program(rng)
         r = rng.random()
+        if r > 0.80:
+            p = c17_include_program(rng)
+            if r > 0.97:
+                p = list(p) + [" LDX NOSUCH\n"]
         if r < 0.30:
             p = list(p)
             k = rng.randrange(len(p))
@@ -446,6 +487,8 @@ def c17_check_cli(prog, listing, obs):
     d = tempfile.mkdtemp(prefix="c17-", dir="/tmp")
     try:
         _write(os.path.join(d, "p.asm"), prog)
+        for name, text in C17_LIB.items():
+            _write(os.path.join(d, name), text)
         a = _cli(d, ["p.asm", "--print", "--symbols"], "0")
         b = _cli(d, ["p.asm", "--print", "--symbols"], "random")
         c = _cli(d, ["p.asm", "--symbols", "--print"], "12345")
@@ -492,7 +535,7 @@ def run_c17(tier, rng, rep, info, deadline):
     for what, pay, fi in probs:
         broken.add(_h(pay["program"]))
         _report(rep, what, pay, fi)
-    model = asmlib.model_batch([(p, None) for p in pool])
+    model = asmlib.model_batch([(p, C17_LIB) for p in pool])
     # (c) warm histories
     bad = [i for i, o in enumerate(ref) if o is not None and o[0] in ("DIAG", "INTERNAL")]
     internal = [i for i, o in enumerate(ref) if o is not None and o[0] == "INTERNAL"]
@@ -578,7 +621,7 @@ def run_c17(tier, rng, rep, info, deadline):
     rep.assumptions = [
         "a 'fresh process' is a fork of a newly started /venv/bin/python that has imported cocoasm and assembled nothing (PYTHONPATH=/repo, PYTHONDONTWRITEBYTECODE=1)",
         "assemblies that hit the %d s watchdog are not compared (none expected on the current tree)" % asmlib.TIMEOUT_S,
-        "history programs are assembled through Program.process on a list of lines (no INCLUDE, no file system)",
+        "history programs are assembled through Program.process on a list of lines; a fifth of them INCLUDE files of a fixed three-file library served by a hook on SourceFile.read_assembly_contents (no file system)",
         "the snapshot covers the cocoasm modules named in the rule; C-level caches (re module cache, ABC caches) are outside it",
     ]
 
@@ -606,7 +649,7 @@ def c17_replay(r):
     if probs:
         return probs
     if "model" in r and ref[0] is not None:
-        m = asmlib.model_batch([(prog, None)])[0]
+        m = asmlib.model_batch([(prog, C17_LIB)])[0]
         if not asmlib.same_obs(ref[0], m):
             return [("correspondence still broken: impl %s model %s" % (str(ref[0])[:150], str(m)[:150]), r, False)]
     return []
